@@ -75,6 +75,7 @@ type XOpts struct {
 	Arrays             bool
 	UserPtrs           bool
 	Unexported         bool // unexported fields (raw types only make sense with them)
+	OddTagValues       bool // tag values with quotes, backslashes, blanks, colons, backticks, non-ASCII
 	ForceElemEmbed     bool // the first top-level field is a slice/array of structs whose element embeds a pointer to a struct
 	ElemNested         bool // element structs of slices/arrays/maps may contain struct, *struct and embedded struct fields
 	ElemUnexported     bool // unexported fields inside the element structs of slices/arrays/maps (Pointerify keeps those)
@@ -210,14 +211,24 @@ func (g *XGen) leaf() reflect.Type {
 	}
 }
 
+var oddTagParts = []string{`a"b`, `x\y`, `two words `, `k:v`, `naïve`, `日本`, "a`b", `q'`, `\"`, `tab	`}
+
 func (g *XGen) tags(name string, isStructy bool) reflect.StructTag {
 	r, o := g.R, g.O
 	var parts []string
+	// everything a properly quoted struct tag value can carry: quotes,
+	// backslashes, blanks, colons, backticks, non-ASCII
+	odd := func(plain string) string {
+		if o.OddTagValues && r.Chance(1, 5) {
+			return oddTagParts[r.Intn(len(oddTagParts))] + plain
+		}
+		return plain
+	}
 	if o.DialsTags && r.Chance(1, 4) {
-		parts = append(parts, fmt.Sprintf(`dials:"t_%s"`, strings.ToLower(name)))
+		parts = append(parts, "dials:"+strconv.Quote(odd("t_"+strings.ToLower(name))))
 	}
 	if o.Desc && r.Chance(1, 6) {
-		parts = append(parts, fmt.Sprintf(`dialsdesc:"about %s"`, name))
+		parts = append(parts, "dialsdesc:"+strconv.Quote(odd("about "+name)))
 	}
 	if len(o.AliasFamilies) > 0 && r.Chance(o.AliasNum, o.AliasDen) {
 		n := 0
@@ -227,9 +238,9 @@ func (g *XGen) tags(name string, isStructy bool) reflect.StructTag {
 				if fam != "dials" {
 					val = "OLD_" + strings.ToUpper(name) + "_" + strings.ToUpper(strings.TrimPrefix(fam, "dials"))
 				}
-				parts = append(parts, fmt.Sprintf(`%salias:"%s"`, fam, val))
+				parts = append(parts, fam+"alias:"+strconv.Quote(odd(val)))
 				if fam != "dials" && r.Chance(1, 2) {
-					parts = append(parts, fmt.Sprintf(`%s:"CUR_%s"`, fam, strings.ToUpper(name)))
+					parts = append(parts, fam+":"+strconv.Quote(odd("CUR_"+strings.ToUpper(name))))
 				}
 				n++
 			}
